@@ -51,7 +51,7 @@ def sealBlock (p : Proc) (i : Inst) (t : Topic) (b : Blk) (used : Nat) : Proc ×
   (p, appendBlockToChain i t { b with used := used })
 
 /-- `Writer::write` -/
-def writerWrite (c : Cfg) (p : Proc) (i : Inst) (t : Topic) (w : Writer) (pay : Pay)
+def writerWriteCore (c : Cfg) (p : Proc) (i : Inst) (t : Topic) (w : Writer) (pay : Pay)
     (flt : Option Fault := none) : Proc × Inst × Option ErrKind :=
   if w.batching then (p, i, some .wouldBlock)
   else
@@ -81,6 +81,13 @@ def writerWrite (c : Cfg) (p : Proc) (i : Inst) (t : Topic) (w : Writer) (pay : 
         let p := { p with files := writeCell c p.files w.blk w.off t pay }
         let w := { w with off := w.off + need }
         (p, { i with writers := i.writers.insert t w }, none)
+
+/-- `Writer::write`: an entry that no block can hold is rejected before any state changes (fix 'oversized entries');
+the rest is `writerWriteCore` (whose seal-then-`alloc_block`-fails branch is unreachable from here) -/
+def writerWrite (c : Cfg) (p : Proc) (i : Inst) (t : Topic) (w : Writer) (pay : Pay)
+    (flt : Option Fault := none) : Proc × Inst × Option ErrKind :=
+  if !w.batching && decide (c.metaSz + pay.len > c.maxAlloc) then (p, i, some .invalidInput)
+  else writerWriteCore c p i t w pay flt
 
 /-- `Walrus::append_for_topic` -/
 def appendForTopic (c : Cfg) (p : Proc) (i : Inst) (t : Topic) (pay : Pay) (flt : Option Fault := none) :
@@ -118,7 +125,7 @@ def batchFails (flt : Option Fault) (planLen : Nat) : Bool :=
   | _ => false
 
 /-- `Writer::batch_write` -/
-def writerBatchWrite (c : Cfg) (p : Proc) (i : Inst) (t : Topic) (w : Writer) (batch : List Pay)
+def writerBatchWriteCore (c : Cfg) (p : Proc) (i : Inst) (t : Topic) (w : Writer) (batch : List Pay)
     (flt : Option Fault := none) : Proc × Inst × Option ErrKind :=
   if batch.length > c.cap then (p, i, some .invalidInput)
   else if (batch.map fun x => c.metaSz + x.len).sum > c.maxBatchBytes then (p, i, some .invalidInput)
@@ -145,6 +152,14 @@ def writerBatchWrite (c : Cfg) (p : Proc) (i : Inst) (t : Topic) (w : Writer) (b
         let files := plan.foldl (fun fs (b, o, pay) => writeCell c fs b o t pay) p.files
         let w := { w with blk := nb, off := off }
         ({ p with files := files }, { i with writers := i.writers.insert t w }, none)
+
+/-- `Writer::batch_write`: after the entry-count and total-size checks, a batch with an entry that no block can hold
+is rejected before any state changes; the rest is `writerBatchWriteCore` -/
+def writerBatchWrite (c : Cfg) (p : Proc) (i : Inst) (t : Topic) (w : Writer) (batch : List Pay)
+    (flt : Option Fault := none) : Proc × Inst × Option ErrKind :=
+  if decide (batch.length ≤ c.cap) && decide ((batch.map fun x => c.metaSz + x.len).sum ≤ c.maxBatchBytes) &&
+      batch.any (fun x => decide (c.metaSz + x.len > c.maxAlloc)) then (p, i, some .invalidInput)
+  else writerBatchWriteCore c p i t w batch flt
 
 /-- `Walrus::batch_append_for_topic` -/
 def batchAppendForTopic (c : Cfg) (p : Proc) (i : Inst) (t : Topic) (batch : List Pay)
